@@ -367,6 +367,8 @@ func init() {
 		s := NewStream(dir, "genesis")
 		defer s.Close(dir, "genesis")
 		monUTF8(s)
+		monAolGenesisConsistency(s, "c01")
+		monAolGenesisConsistency(s, "c13")
 		seen, sigs := map[string]bool{}, map[string]bool{}
 		for h := 0; h < n; h++ {
 			genesisHistory(s, rng, 20+rng.Intn(40), seen, sigs, h == 0)
